@@ -727,22 +727,62 @@ def h_decoy_import(P):           # the imported package gains a NON-target spell
     return None, False
 
 
-def h_constraint_lifted(P):
-    """a file of the imported package is excluded by a build constraint and holds a function spelled like a local
-    target (or like nothing else); the constraint is removed by rewriting the file IN PLACE: the function becomes a
-    target - a collision (or a new runnable name)"""
+# ways of switching a file off and on by rewriting its //go:build line in place: (off, on, same length?)
+FLIPS_IMPORT = [("//go:build ignore", "", False), ("//go:build ignore", "//go:build !ignor", True),
+                ("//go:build plan9", "//go:build linux", True), ("//go:build never_set", "//go:build !never_set", False),
+                ("//go:build linux && windows", "//go:build linux || windows", True)]
+FLIPS_MAGEFILE = [("//go:build magx", "//go:build mage", True), ("//go:build mage && plan9", "//go:build mage && linux", True),
+                  ("//go:build ignore", "//go:build mage", False), ("//go:build mage && ignore", "//go:build mage", False)]
+
+
+def h_constraint_flip(P):
+    """WHICH files count changes without creating, removing or renaming anything: a file of an imported package (or a
+    second magefile) holds one or two functions and is switched off / on by its //go:build line, rewritten in place.
+    Switched on, a function is spelled like a local target / a root-imported function (collision) or like nothing else
+    (a new runnable name)"""
+    rng = P.rng
     w = P.word()
-    P.local("", rcase(P.rng, w))
-    i = P.imp(P.rng.choice(["", "", P.ial()]), file=0)
+    i = P.imp(rng.choice(["", "", P.ial()]), file=0)
     i["tag"] = i["alias"]
-    P.itgt(i, "", rcase(P.rng, P.word()))
-    collides = i["alias"] == "" and P.rng.random() < 0.7
-    ident_ = P.itgt(i, "", rcase(P.rng, w) if collides else rcase(P.rng, P.word()))
-    i["tgts"][-1]["file"] = "zz_excluded.go"
-    return ident_, collides
+    P.itgt(i, "", rcase(rng, P.word()))
+    in_import = rng.random() < 0.65
+    collides = rng.random() < 0.65 and (i["alias"] == "" or not in_import)
+    if in_import:
+        P.local("", rcase(rng, w))
+        off, on, same = rng.choice(FLIPS_IMPORT)
+        ids = [P.itgt(i, "", rcase(rng, w) if collides else rcase(rng, P.word()))]
+        if rng.random() < 0.4:
+            ids.append(P.itgt(i, "", rcase(rng, P.word())))
+        holder, tg = i, i["tgts"]
+    else:
+        P.itgt(i, "", rcase(rng, w))
+        P.local("", rcase(rng, P.word()))
+        off, on, same = rng.choice(FLIPS_MAGEFILE)
+        ids = [P.local("", (rcase(rng, w) if i["alias"] == "" else variant(rng, P.spec["locals"][0]["name"])) if collides else rcase(rng, P.word()))]
+        holder, tg = P.spec, P.spec["locals"]
+    ids = [x for x in ids if x]
+    for t in tg:
+        if t["id"] in ids:
+            t["file"] = "zz_gated.go"
+    holder["files"] = {"zz_gated.go": {"on": on, "off": off, "state": "on", "keep_times": same, "tgts_off": []}}
+    return ("gate", ids), collides
 
 
-HISTORIES = [("imp:constraint_lifted", h_constraint_lifted), ("imp:root_vs_local", h_root_vs_local), ("imp:alias_vs_imported", h_alias_vs_imported),
+def _gate_off(spec):
+    """a copy of spec with every gated file switched off: its functions are no targets any more"""
+    import copy
+    a = copy.deepcopy(spec)
+    for holder, key in [(a, "locals")] + [(i, "tgts") for i in a["imports"]]:
+        for fn_, g in holder.get("files", {}).items():
+            g["tgts_off"] = [t for t in holder[key] if t.get("file") == fn_]
+            g["state"] = "off"
+            gone = set(t["id"] for t in g["tgts_off"])
+            holder[key] = [t for t in holder[key] if t.get("file") != fn_]
+            a["aliases"] = [x for x in a["aliases"] if x["ref"] not in gone]
+    return a
+
+
+HISTORIES = [("constraint_flip", h_constraint_flip), ("constraint_flip", h_constraint_flip), ("imp:root_vs_local", h_root_vs_local), ("imp:alias_vs_imported", h_alias_vs_imported),
              ("imp:two_imports_one_alias", h_two_imports_one_alias), ("imp:import_internal", h_import_internal),
              ("mage:local_case", h_local_case), ("mage:local_vs_root", h_local_vs_root), ("imp:decoy", h_decoy_import)]
 
@@ -754,12 +794,10 @@ def history(rng, name, hk, fn):
     ident_, collides = fn(P)
     P.finish()
     b = P.spec
-    if ident_ is not None:
+    if isinstance(ident_, tuple):
+        a = _gate_off(b)
+    elif ident_ is not None:
         a = _drop(b, ident_)
-        for ib, ia in zip(b["imports"], a["imports"]):
-            for t in ib["tgts"]:
-                if t["id"] == ident_ and t.get("file"):      # before the edit the function sits behind a build constraint
-                    ia.setdefault("decoys", []).append({"kind": "tagged_out", "recv": "", "name": t["name"]})
     else:
         a = copy.deepcopy(b)
         a["decoys"] = []
@@ -866,6 +904,16 @@ def _needs_mg(tgts, decoys=()):
     return any(t["recv"] for t in tgts) or any(x["kind"] in ("ns_bad", "unexp_ns") for x in decoys)
 
 
+def _gated_files(holder, key, pkgname, prefix, mod):
+    """the files of one package that a //go:build line switches on or off"""
+    files = {}
+    for fn_, g in holder.get("files", {}).items():
+        tg = [t for t in holder[key] if t.get("file") == fn_] if g["state"] == "on" else g["tgts_off"]
+        line = g[g["state"]]
+        files[prefix + fn_] = (line + "\n\n" if line else "") + 'package %s\n\nimport (\n\t"%s/probe"\n)\n\n' % (pkgname, mod) + _decls(tg)
+    return files
+
+
 def _side_files(pkgname, decoys, prefix, tag):
     """the _test file and the file excluded by a build constraint of one package"""
     files = {}
@@ -905,7 +953,7 @@ def render(spec):
             continue
         imps = []
         if fno == 0:
-            if spec["locals"]:
+            if any(not t.get("file") for t in spec["locals"]):
                 imps.append('\t"%s/probe"\n' % mod)
             if _needs_mg(spec["locals"], spec.get("decoys", ())):
                 imps.append('\t"github.com/magefile/mage/mg"\n')
@@ -926,8 +974,9 @@ def render(spec):
         if fno == 0:
             if entries:
                 src += "var Aliases = map[string]interface{}{\n" + "".join(entries) + "}\n\n"
-            src += _decls(spec["locals"], spec.get("decoys", ()))
+            src += _decls([t for t in spec["locals"] if not t.get("file")], spec.get("decoys", ()))
         files[fname] = src
+    files.update(_gated_files(spec, "locals", "main", "", mod))
     files.update(_side_files("main", spec.get("decoys", ()), "", "//go:build mage\n\n"))
     done = set()
     for i in spec["imports"]:
@@ -950,9 +999,7 @@ def render(spec):
         s += _decls([t for t in i["tgts"] if not t.get("file")], i.get("decoys", ()))
         files["imp/%s/%s.go" % (i["pkg"], i["pkg"])] = s
         files.update(_side_files(i["pkg"], i.get("decoys", ()), "imp/%s/" % i["pkg"], ""))
-        for fn_ in sorted(set(t["file"] for t in i["tgts"] if t.get("file"))):      # a file whose constraint was lifted
-            files["imp/%s/%s" % (i["pkg"], fn_)] = 'package %s\n\nimport (\n\t"%s/probe"\n)\n\n' % (i["pkg"], mod) + \
-                _decls([t for t in i["tgts"] if t.get("file") == fn_])
+        files.update(_gated_files(i, "tgts", i["pkg"], "imp/%s/" % i["pkg"], mod))
     return files
 
 
